@@ -340,6 +340,119 @@ def field_of(mesh, nv, x, spec, **kw):
     return f
 
 
+# ------------------------------------------------------------------ directed core
+def dmesh(n, cells=None, origin=None, dims=None, units=None, seq="list"):
+    nd = len(n)
+    cells = cells or [F(1, 2), F(3, 4), F(5, 8), F(1, 4)][:nd]
+    origin = origin or [F(-3, 2), F(1, 4), F(2), F(-1)][:nd]
+    return dict(p1=[S(o) for o in origin], p2=[S(o + k * c) for o, k, c in zip(origin, n, cells)], n=list(n),
+                dims=dims or DIMSETS[nd][0], units=units or ["m"] * nd, regime="directed", seq=seq)
+
+
+def dvals(seed, cplx=False, sre=1.0, sim=None, cls="rand", mag="one", **kw):
+    v = dict(cplx=cplx, seed=seed, scale=sre, scale_im=sre if sim is None else sim, mag=mag, cls=cls, dtype=None,
+             layout=None, valid=None, no_dtype_arg=False, re_zero=False, im_zero=False)
+    v.update(kw)
+    return v
+
+
+def directed_core():
+    """seed-, tier- and run-independent cases: one small group per mechanism a change was once seeded
+    into (rounds a-e, /verif/seeded/C11-*), so that detecting it never depends on the random streams"""
+    r = random.Random(424242)
+    sd = lambda: r.randrange(10 ** 9)  # noqa: E731
+    cs = []
+    # a1 / e2 / d1: real inverse, odd non-last axes, with and without shape, one-cell last axis
+    for n0, ws in [([3, 4], "list"), ([3, 4], "none"), ([5, 3], "list"), ([3, 2, 4], "none"), ([3, 5, 2], "list"),
+                   ([7], "int"), ([4], "none"), ([6], "list"), ([3, 1], "none"), ([4, 3, 1], "none"), ([1], "none"),
+                   ([2, 3, 6], "none"), ([1, 1], "list")]:
+        cs.append(dict(kind="inv", op="irfftn", n0=n0, nv=2, mesh=dmesh(n0), with_shape=ws, values=dvals(sd())))
+    for n0 in ([3, 4], [5], [2, 3, 3]):
+        cs.append(dict(kind="inv", op="ifftn", n0=n0, nv=1, mesh=dmesh(n0), values=dvals(sd(), cplx=True)))
+    # a2 / d2: k-mesh coordinates on odd axes; names and units that already look reciprocal
+    for n, rf in [([3], False), ([5, 4], False), ([5, 4], True), ([7, 3, 2], True), ([3, 3, 3, 3], False),
+                  ([1, 5], True), ([9], True), ([2], False)]:
+        cs.append(dict(kind="meshf", mesh=dmesh(n), rfft=rf))
+    cs.append(dict(kind="meshf", mesh=dmesh([4, 3], dims=["k_x", "k_y"], units=["(nm" + KSUF, "(m" + KSUF]), rfft=False))
+    cs.append(dict(kind="meshf", mesh=dmesh([4, 3], dims=["k_x", "y"], units=["(nm" + KSUF, "m"], seq="tuple"), rfft=True))
+    cs.append(dict(kind="meshf", mesh=dmesh([3], dims=["k_k_x"], units=["((m" + KSUF + KSUF]), rfft=False))
+    for n0, rf, shp, cls in [([4, 3], True, None, "none"), ([4, 5], True, [4, 5], "orig"), ([4, 6], True, None, "none"),
+                             ([3, 1], True, None, "none"), ([5], False, None, "none"), ([4, 5], True, [4, 4], "even")]:
+        km, nn, c0 = kmesh_of(random.Random(7), "quick", rf, nd=len(n0))
+        # rebuild the k-mesh for exactly these counts from the closed formulas
+        p1, p2, nk = [], [], []
+        for a, k in enumerate(n0):
+            c = c0[a]
+            last = rf and a == len(n0) - 1
+            if k == 1:
+                lo, hi, kk = -F(1, 2) / c, F(1, 2) / c, 1
+            elif last:
+                lo, hi, kk = -F(1, 2) / (k * c), (F(k // 2) + F(1, 2)) / (k * c), k // 2 + 1
+            else:
+                lo, hi, kk = (-F(k // 2) - F(1, 2)) / (k * c), (F((k - 1) // 2) + F(1, 2)) / (k * c), k
+            p1.append(S(float(lo)))
+            p2.append(S(float(hi)))
+            nk.append(kk)
+        km = dict(km, p1=p1, p2=p2, n=nk, seq="list")
+        cs.append(dict(kind="meshi", mesh=km, rfft=rf, shape=shp, shape_cls=cls,
+                       n0=n0 if cls != "even" else None, c0=[S(c) for c in c0] if cls != "even" else None))
+    # a3 / b2 / e1: labels (first characters f, t, _), mapping written in another order, named scalars
+    for vd, items in [(["fx", "fy", "fz"], [["fz", "z"], ["fx", "x"], ["fy", "y"]]),
+                      (["theta", "t"], [["t", "y"], ["theta", "x"]]),
+                      (["ft_ft_a", "_b"], [["_b", "k_y"], ["ft_ft_a", "k_x"]]),
+                      (["a", "b", "c"], [["c", "z"], ["a", "x"], ["b", "y"]]),
+                      (["ft_a", "ft_b", "ft_c"], [["ft_b", "k_y"], ["ft_c", "k_z"], ["ft_a", "k_x"]]),
+                      (["s"], [["s", "x"]]), (["ft_s"], [["ft_s", "k_x"]]), (["t"], []), (None, None),
+                      (["v0", "v1", "v2", "v3"], [["v3", "x"], ["v1", "z"], ["v0", "y"], ["v2", "foo"]])]:
+        for op in ("fftn", "rfftn", "ifftn", "irfftn"):
+            nv = 1 if vd is None else len(vd)
+            cs.append(dict(kind="names", nv=nv, vdims=vd, mapping=items, nd=3 if nv == 3 else 2, seq="list", op=op))
+    # b1 / b3 / c3 / d3 / e3: forward transforms
+    for n, op in [([3, 4, 2], "rfftn"), ([2, 3, 3, 2], "rfftn"), ([5], "rfftn"), ([4], "rfftn"), ([3, 3], "rfftn"),
+                  ([1, 4, 1], "rfftn"), ([3, 4], "fftn"), ([5, 2, 3], "fftn")]:
+        cs.append(dict(kind="fwd", op=op, mesh=dmesh(n), nv=2, values=dvals(sd())))
+    for n in ([3, 4], [5], [2, 3, 2]):                      # complex sources re-used afterwards
+        cs.append(dict(kind="fwd", op="fftn", mesh=dmesh(n), nv=2, values=dvals(sd(), cplx=True)))
+        cs.append(dict(kind="fwd", op="fftn", mesh=dmesh(n), nv=1, values=dvals(sd(), cplx=True, layout="F")))
+    for n, op in [([4, 3], "fftn"), ([4, 3], "rfftn"), ([5, 4, 3], "rfftn"), ([6], "fftn")]:   # validity
+        cs.append(dict(kind="fwd", op=op, mesh=dmesh(n), nv=2,
+                       values=dvals(sd(), valid=dict(kind="bool", seed=sd(), p=0.5))))
+        cs.append(dict(kind="fwd", op=op, mesh=dmesh(n), nv=1, values=dvals(sd(), valid=dict(kind="callable", seed=sd()))))
+    for n, op in [([4, 3], "fftn"), ([4, 3], "rfftn"), ([5], "rfftn")]:                       # dtypes
+        for dt, ndt in [(None, False), (None, True), ("float32", False), ("int", False)]:
+            cs.append(dict(kind="fwd", op=op, mesh=dmesh(n), nv=2,
+                           values=dvals(sd(), dtype=dt, no_dtype_arg=ndt, cls="ints" if dt == "int" else "rand")))
+    for n in ([4, 5], [3, 1, 6], [7]):                      # the real transform of complex-typed fields
+        cs.append(dict(kind="fwd", op="rfftn", mesh=dmesh(n), nv=2, values=dvals(sd(), cplx=True)))
+        cs.append(dict(kind="fwd", op="rfftn", mesh=dmesh(n), nv=1, values=dvals(sd(), cplx=True, sim=1e-10, mag="tiny-imag")))
+        cs.append(dict(kind="fwd", op="rfftn", mesh=dmesh(n), nv=1, values=dvals(sd(), cplx=True, sim=2.0 ** -60, mag="tiny-imag")))
+        cs.append(dict(kind="fwd", op="rfftn", mesh=dmesh(n), nv=1, values=dvals(sd(), cplx=True, cls="delta")))
+        cs.append(dict(kind="fwd", op="rfftn", mesh=dmesh(n), nv=1, values=dvals(sd(), cplx=True, re_zero=True, sim=2.0 ** -40, mag="tiny-all")))
+        cs.append(dict(kind="fwd", op="rfftn", mesh=dmesh(n), nv=2, values=dvals(sd(), cplx=True, im_zero=True)))
+    # b1 / c1 / c3 / e3: algebra (round trips, linearity, rescaling) on complex fields of every magnitude
+    for n, (sre, sim, mag) in [([4, 6], (1e-10, 1e-10, "tiny-all")), ([3, 4], (2.0 ** -40, 2.0 ** -40, "tiny-all")),
+                               ([5], (2.0 ** -200, 2.0 ** -200, "tiny-all")), ([4, 3], (1.0, 1e-10, "tiny-imag")),
+                               ([2, 3, 2], (1.0, 2.0 ** -30, "tiny-imag")), ([3, 3], (1.0, 1.0, "one")),
+                               ([4], (2.0 ** 300, 2.0 ** 300, "far")), ([3, 2], (1e-12, 1.0, "tiny-real"))]:
+        cs.append(dict(kind="algebra", mesh=dmesh(n), nv=2, values=dvals(sd(), cplx=True, sre=sre, sim=sim, mag=mag),
+                       values2=dvals(sd(), cplx=True), coef=[1.5, -0.75]))
+    for n, valid in [([4, 3], dict(kind="bool", seed=11, p=0.5)), ([5, 4, 3], dict(kind="bool", seed=12, p=0.2)),
+                     ([3, 4], dict(kind="callable", seed=13)), ([3, 5], None), ([4, 3, 1], None), ([1], None), ([6, 1], None)]:
+        cs.append(dict(kind="algebra", mesh=dmesh(n), nv=3 if len(n) == 3 else 2, values=dvals(sd(), valid=valid),
+                       values2=dvals(sd()), coef=[2.0, 0.5]))
+    # c2: used, changed in place, transformed again
+    for n, steps in [([4, 6], [dict(op="scale", factor=[2.0, 0.5], ref=False)]),
+                     ([4, 6], [dict(op="units", units=["nm", "nm"])]),
+                     ([4, 6], [dict(op="rotate90", ax=[0, 1], k=1, on="field")]),
+                     ([3, 4], [dict(op="dims", dims=["a", "b"])]),
+                     ([3, 4], [dict(op="translate", vector=[1.0, -2.5]), dict(op="scale", factor=3.0, ref=True)]),
+                     ([2, 3, 4], [dict(op="rotate90", ax=[2, 0], k=3, on="field"), dict(op="units", units=["s", "", "px"])]),
+                     ([5], [dict(op="scale", factor=[0.25], ref=False), dict(op="dims", dims=["t"])])]:
+        for rf in (False, True):
+            cs.append(dict(kind="state", mesh=dmesh(n), nv=1, values=dvals(sd()), steps=steps, rfft=rf))
+    return cs
+
+
 def generate(rng, tier):
     q = tier == "quick"
     cases = []
@@ -401,7 +514,8 @@ def generate(rng, tier):
         v["dtype"] = None
         cases.append(dict(kind="state", mesh=m, nv=nv, values=v, steps=gen_steps(rng, nd, nv), rfft=rng.random() < 0.5))
     rng.shuffle(cases)
-    return cases
+    # the directed core comes first and is the same in every run
+    return directed_core() + cases
 
 
 # ------------------------------------------------------------------ implementation side
